@@ -29,6 +29,7 @@ type Case struct {
 	Enums     map[string]string `json:"enums"`
 	TypeName  string            `json:"typename"` // @genqlient(typename:) on the use site ("" none)
 	Usage     string            `json:"usage"`    // result | variable | inputfield
+	Twin      string            `json:"twin,omitempty"` // a SECOND enum, used as a variable, whose Go type name is the same (first letter in the other case)
 }
 
 type Decl struct {
@@ -156,7 +157,12 @@ func program(c *Case) *core.Program {
 	}
 	schema.WriteString("}\n")
 	schema.WriteString("input I { e: " + c.Gql + " }\n")
-	schema.WriteString("type Query { f: " + c.Gql + " g(e: " + c.Gql + "): String h(i: I): String }\n")
+	twinField := ""
+	if c.Twin != "" {
+		schema.WriteString("enum " + c.Twin + " {\n  TWIN_ONLY_1\n  TWIN_ONLY_2\n}\n")
+		twinField = " k(t: " + c.Twin + "): String"
+	}
+	schema.WriteString("type Query { f: " + c.Gql + " g(e: " + c.Gql + "): String h(i: I): String" + twinField + " }\n")
 	dir := ""
 	if c.TypeName != "" {
 		dir = "# @genqlient(typename: \"" + c.TypeName + "\")\n"
@@ -174,6 +180,10 @@ func program(c *Case) *core.Program {
 			d = "# @genqlient(for: \"I.e\", typename: \"" + c.TypeName + "\")\n"
 		}
 		op = d + "query Q(\n$i: I\n) { h(i: $i) }\n"
+	}
+	if c.Twin != "" {
+		// both enums in one operation: the result first, the twin as a variable
+		op = "query Q(\n$t: " + c.Twin + "\n) {\nf\nk(t: $t)\n}\n"
 	}
 	return &core.Program{
 		Files:  map[string]string{"schema.graphql": schema.String(), "ops.graphql": op},
@@ -301,6 +311,17 @@ var conflictRe = regexp.MustCompile(`enum values (\S+) and (\S+) have conflictin
 // Oracle is the specification check, run on the IMPLEMENTATION's output only.
 // It returns "" when the property holds on this case.
 func Oracle(c *Case, o *Obs) (class, what string) {
+	if c.Twin != "" {
+		// two enums, one Go type name: there is no way to give each its constants; only a
+		// refusal is right
+		switch o.Class {
+		case "ok", "Unparsable":
+			return "C16/two-enums-one-go-type", fmt.Sprintf("enums %s and %s are both used and both map to one Go type name, yet generation succeeded: one of them has no constants", c.Gql, c.Twin)
+		case "Panic", "Timeout":
+			return "C16/" + o.Class, "unexpected outcome: " + o.Class + " " + o.Msg
+		}
+		return "", ""
+	}
 	switch o.Class {
 	case "ok":
 		d := o.Decl
@@ -444,7 +465,7 @@ func corpus() []*Case {
 // Run is the driver entry.
 func Run(tier string, seed int64, outDir string, replay string) (*core.Result, error) {
 	res := core.NewResult("C16", tier, seed)
-	res.Rule = "random enums (1-6 values over adversarial alphabets with case/underscore variants of earlier values) x casing default/all_enums/per-enum x typename option x usage (result|variable|inputfield), after a fixed corpus; each case is one real generate.Generate call; non-trivial = accepted by the schema validator; distinct = distinct (enum, casing, typename, usage)"
+	res.Rule = "random enums (1-6 values over adversarial alphabets with case/underscore variants of earlier values) x casing default/all_enums/per-enum x typename option x usage (result|variable|inputfield), after a fixed corpus; every 8th again together with a second enum whose name differs in the case of the first letter only (one Go type name for two enums: only a refusal is right); each case is one real generate.Generate call; non-trivial = accepted by the schema validator; distinct = distinct (enum, casing, typename, usage)"
 	if replay != "" {
 		data, err := os.ReadFile(replay)
 		if err != nil {
@@ -474,6 +495,34 @@ func Run(tier string, seed int64, outDir string, replay string) (*core.Result, e
 	cases := corpus()
 	for i := 0; i < n; i++ {
 		cases = append(cases, GenCase(rng, i))
+	}
+	// every 8th random case again with a twin enum (Color / color): judged by the oracle only
+	var twins []*Case
+	for i, c := range cases {
+		if i%8 == 3 && c.TypeName == "" && len(c.Gql) > 0 {
+			f := c.Gql[:1]
+			var tw string
+			switch {
+			case f >= "A" && f <= "Z":
+				tw = strings.ToLower(f) + c.Gql[1:]
+			case f >= "a" && f <= "z":
+				tw = strings.ToUpper(f) + c.Gql[1:]
+			}
+			if tw != "" && tw != "Query" && tw != "I" {
+				c2 := *c
+				c2.ID, c2.Twin, c2.Usage = c.ID+"-twin", tw, "result"
+				twins = append(twins, &c2)
+			}
+		}
+	}
+	for _, c := range twins {
+		o := Observe(c)
+		key, _ := json.Marshal(c)
+		res.Count(string(key[strings.Index(string(key), ",")+1:]), o.Class != "InvalidSchema")
+		res.Dist("twin-outcome:" + o.Class)
+		if cls, what := Oracle(c, o); cls != "" {
+			res.Fail(core.Failure{Case: c.ID, Class: cls, What: what, Replay: c})
+		}
 	}
 	var coqCases []string
 	caseIndex := map[string]interface{}{}
